@@ -13,13 +13,36 @@ theorem equalRange_iff : ∀ (p c : Str), equalRange p c = true ↔ p <+: c
   | a :: p, b :: c => by
     simp [equalRange, equalRange_iff p c, List.cons_prefix_cons]
 
+set_option linter.unusedSimpArgs false in
+/-- the body of `hasPrefix` regenerated from stringutility.hh is the canonical transcription (whatever the spelling
+    of the size test) -/
+theorem hasPrefix_eq_canon (c pre : Str) : hasPrefix c pre = hasPrefixCanon c pre := by
+  unfold hasPrefix hasPrefixCanon
+  by_cases h : pre.length ≤ c.length
+  · have h2 : ¬ c.length < pre.length := by omega
+    simp [h, h2]
+  · have h2 : c.length < pre.length := by omega
+    simp [h, h2]
+
+set_option linter.unusedSimpArgs false in
+/-- the body of `hasSuffix` regenerated from stringutility.hh is the canonical transcription -/
+theorem hasSuffix_eq_canon (c suf : Str) : hasSuffix c suf = hasSuffixCanon c suf := by
+  unfold hasSuffix hasSuffixCanon
+  by_cases h : suf.length ≤ c.length
+  · have h2 : ¬ c.length < suf.length := by omega
+    simp [h, h2]
+  · have h2 : c.length < suf.length := by omega
+    simp [h, h2]
+
 theorem hasPrefix_iff_isPrefix (c pre : Str) : hasPrefix c pre = true ↔ pre <+: c := by
-  unfold hasPrefix
+  rw [hasPrefix_eq_canon]
+  unfold hasPrefixCanon
   rw [Bool.and_eq_true, equalRange_iff, decide_eq_true_iff]
   exact ⟨fun h => h.2, fun h => ⟨h.length_le, h⟩⟩
 
 theorem hasSuffix_iff_isSuffix (c suf : Str) : hasSuffix c suf = true ↔ suf <:+ c := by
-  unfold hasSuffix
+  rw [hasSuffix_eq_canon]
+  unfold hasSuffixCanon
   split
   · rename_i h
     constructor
